@@ -502,6 +502,12 @@ struct Explorer {
         Exec e = exec_and_check(prefix, dealt);
         if (!e.ok && !e.out.deadlock) return;
         auto& pts = e.out.points;
+        if (prefix.empty() && pts.size() > 150 && abound > 1) {
+            // a scenario with hundreds of shared atomic operations (reference counts of a shared composite plan): two
+            // preemptions at atomics would mean millions of schedules; keep one there (total bound unchanged) and say so
+            abound = 1;
+            ctx.note("scenarios whose atomic-preemption bound was lowered to 1 (root execution has > 150 choice points)");
+        }
         int cost = 0, acost = 0;
         std::vector<int> chosen;
         for (size_t i = 0; i < pts.size(); ++i) {
